@@ -217,7 +217,7 @@ def run(ctx):
             o.rule = "R05.2"
             n2 += 1
             ctx.obs.append(o)
-        elif o.rule == "R10.1":
+        elif o.rule in ("R10.1", "R10.6"):
             o.rule = "R05.5"
             n5 += 1
             ctx.obs.append(o)
@@ -430,6 +430,27 @@ def run(ctx):
     if functor_ok is not None:
         ctx.check(functor_ok[0], "R05.6", functor_ok[1], "forwards-both-parameters-unchanged", "the fan-out %s does not hand (severity, record) unchanged to each member sink" % functor_ok[2], functor_ok[1], why_ok=functor_ok[2])
     ctx.need("R05.6", "sequence::sink fan-out lambda / function object", len(sq) + (1 if functor_ok is not None else 0), 1)
+    # the fan-out reaches the sequence's OWN member sinks: the helper that walks the tuple binds it by reference, and so does the visitor its
+    # element (a tuple taken by value is a copy of all member sinks per record - a member sink that keeps state never sees a record)
+    tf = [h for h in prog.fns.values() if h.qual == "nitro::lang::tuple_foreach" and h.file.startswith("/repo/") and h.params]
+    ctx.need("R05.6", "nitro::lang::tuple_foreach overloads", len(tf), 1)
+    seen_tf = set()
+    for h in sorted(tf, key=lambda x: x.id):
+        if (h.file, h.line) in seen_tf:
+            continue
+        seen_tf.add((h.file, h.line))
+        p0 = h.params[0]
+        ctx.check(bool(p0.get("ref")), "R05.6", h, "visits-the-tuple-in-place", "tuple_foreach takes the tuple as `%s` - by value: sink::sequence hands it its member sinks, every record is delivered to "
+                  "copies of them that die at once, the sequence's own sinks (and whatever they buffer or count) never see it" % (p0.get("type"),), h, why_ok=p0.get("type") or "")
+    for g in sq:
+        for pr in g.params[:0]:
+            pass
+    lam = [h for h in prog.fns.values() if h.kind == "lambda" and h.file.endswith("/sink/sequence.hpp") and h.params]
+    for h in sorted(lam, key=lambda x: x.id):
+        if h.is_pattern or len(h.params) != 1:
+            continue
+        p0 = h.params[0]
+        ctx.check(bool(p0.get("ref")), "R05.6", h, "visitor-binds-member-sink-by-reference", "the fan-out visitor takes the member sink as `%s`: it works on a copy" % (p0.get("type"),), h, why_ok=p0.get("type") or "")
     for f in sq:
         calls = [n for _, _, e in f.roots() for n in elem_calls(e) if short(n.get("name") or "") == "sink"]
         parent = [g for g in prog.fns.values() if g.is_pattern and g.kind == "method" and g.qual == "nitro::log::sink::sequence::sink" and f.id.startswith(g.id)]
